@@ -57,7 +57,11 @@ func (p *TriggerPool) Start(ctx context.Context) context.Context {
 	// context.Done() and context.Err() for context that can be cancelled use a Lock.
 	// To avoid frequent locking - use an atomic.Bool for cancellation instead of checking the
 	// context on each iteration
+	// this goroutine also reports what was still pending as dropped: the pool is not
+	// complete (WaitForCompletion) before it has done so
+	p.manager.runningWorkers.Add(1)
 	go func() {
+		defer p.manager.runningWorkers.Done()
 		<-workerCtx.Done()
 		p.stop()
 	}()
